@@ -215,6 +215,14 @@ class New(Op):
             elif lz == "gen":
                 kw[f] = (x for x in kw[f])
         cls = w.kind_cls[kind]
+        if op.get("subclass"):
+            # an instance of a trivial USER subclass: still a CodeBlock / Section / ... for every
+            # purpose of the API (isinstance), whatever type(x) says
+            cache = w.__dict__.setdefault("user_subclasses", {})
+            if kind not in cache:
+                cache[kind] = type("User" + cls.__name__, (cls,), {})
+            cls = cache[kind]
+            w.counters["probe:user_subclass_instances"] += 1
         out = capture(lambda: cls(**kw))
         if out.kind == "ok":
             out.value = "created"
